@@ -28,7 +28,7 @@ Theorem server_chain_recorded_only_if_proved_tls12 : forall O r s c,
 Proof. exact client12_recorded. Qed.
 
 (* (3)(6)(9) client TLS 1.3: chain recorded only after CertificateVerify by the end-entity
-   key (or, with a delegated credential, BOTH the delegation signature by the end-entity
+   key with a scheme the ClientHello offered (or, with a delegated credential, BOTH the delegation signature by the end-entity
    key and the CertificateVerify by the credential key, both algorithms offered) over
    64 spaces || "TLS 1.3, server CertificateVerify" || 00 || H(transcript up to Certificate),
    and the server Finished *)
@@ -38,7 +38,7 @@ Theorem server_chain_recorded_only_if_proved_tls13 : forall O r s c,
   exists cm sch0 sg ctx,
     r_cert r = Some cm /\ c = cm_chain cm /\ c <> [] /\ r_cv r = Some (Some sch0, sg) /\
     vb13 O sch0 (r_prf r) tag_server (r_tr_cv r) = Ok ctx /\
-    ((cm_dc cm = [] /\ s_dc s = false /\ sig_ok O (cm_key cm) (Some sch0) ctx sg = true) \/
+    ((cm_dc cm = [] /\ s_dc s = false /\ sch_in sch0 (r_offered r) = true /\ sig_ok O (cm_key cm) (Some sch0) ctx sg = true) \/
      (exists d, cm_dc cm = [d] /\ s_dc s = true /\ dc_cv_alg d = sch0 /\ dc_proved O r cm d ctx sg)).
 Proof. exact client13_recorded. Qed.
 
@@ -92,21 +92,18 @@ Theorem client_chain_recorded_only_if_proved_pha : forall O r c,
     sig_ok O (cm_key cm) (Some sch) ctx sg = true.
 Proof. exact server_pha_recorded. Qed.
 
-(* (7) SRP.  FULL statement: "the session carries an SRP user name only if the key exchange
-   was SRP, the user is in the verifier database and the client Finished verifies under the
-   secret derived from that verifier (password proof)".  It is FALSE of the faithful model
-   (and of the code): see _refuted.  Proved part: it holds whenever an SRP suite was
-   negotiated; missing hypothesis: kx_is_srp (r_kx r) = true. *)
-Theorem srp_user_only_if_password_proof_partial : forall O r s u,
-  server12 O r = Ok s -> kx_is_srp (r_kx r) = true -> s_srp_user s = Some u ->
-  r_srp_user r = Some u /\ r_srp_known r = true /\ r_kx_alert r = None /\
+(* (7) SRP: the session carries an SRP user name only if the key exchange was SRP, the user is
+   in the verifier database and the client Finished verifies under the secret derived from
+   that verifier (password proof).
+   History: before fix 11c0ed7 (/repo) this full statement was FALSE of the faithful model and of
+   the code -- srp_user_only_if_password_proof_refuted held with witness run_w2 (certificate-only
+   server, ClientHello with an SRP extension, srpUsername = "admin" recorded) and only the
+   _partial form (extra hypothesis kx_is_srp (r_kx r) = true) was provable. *)
+Theorem srp_user_only_if_password_proof : forall O r s u,
+  server12 O r = Ok s -> s_srp_user s = Some u ->
+  kx_is_srp (r_kx r) = true /\ r_srp_user r = Some u /\ r_srp_known r = true /\ r_kx_alert r = None /\
   r_rec_ok r = true /\ fin_ok O FIN_C12 (r_tr_fin r) (r_fin r) = true.
-Proof. exact server12_srp_partial. Qed.
-
-Theorem srp_user_only_if_password_proof_refuted :
-  exists O r s u,
-    server12 O r = Ok s /\ s_srp_user s = Some u /\ kx_is_srp (r_kx r) = false /\ r_srp_known r = false.
-Proof. exact server12_srp_unproved_witness. Qed.
+Proof. exact server12_srp. Qed.
 
 (* (8) PSK *)
 Theorem psk_identity_only_if_binder_and_finished : forall O r s id,
@@ -121,15 +118,14 @@ Theorem psk_server_only_if_finished : forall O r s id,
   r_rec_ok r = true /\ fin_ok O FIN_S13 (r_tr_fin r) (r_fin r) = true.
 Proof. exact client13_psk. Qed.
 
-(* the scheme-was-offered parts that hold are conjuncts of the theorems above
-   (sch_in ... (r_valid r) / (r_offered r) / (r_dc_offered r)); the one that does not: *)
-Theorem scheme_must_be_offered_tls13_server_cv_refuted :
-  exists O r s c sch sg,
-    client13 O r = Ok s /\ s_server_chain s = Some c /\ r_cert r <> None /\
-    r_cv r = Some (Some sch, sg) /\ sch_in sch (r_offered r) = false.
-Proof. exact client13_scheme_not_offered_witness. Qed.
-
-Theorem scheme_must_be_offered_partial : forall O r,
+(* the signature scheme of every accepted proof was offered / is in the list this endpoint
+   checks, at all six sites.
+   History: before fix 61d7222 (/repo) the sixth conjunct (TLS 1.3 client, server
+   CertificateVerify without delegated credential) was FALSE:
+   scheme_must_be_offered_tls13_server_cv_refuted held with witness run_w1 (client offers
+   rsa_pss_rsae_sha256 only, server signs with rsa_pkcs1_sha1, chain recorded) and only
+   scheme_must_be_offered_partial (the first five conjuncts) was provable. *)
+Theorem scheme_must_be_offered : forall O r,
   (forall s c, server12 O r = Ok s -> s_client_chain s = Some c -> r_ver r = (3, 3) ->
      exists sch sg, r_cv r = Some (Some sch, sg) /\ sch_in sch (r_valid r) = true) /\
   (forall s c, server13 O r = Ok s -> s_client_chain s = Some c -> r_psk r = None ->
@@ -140,7 +136,9 @@ Theorem scheme_must_be_offered_partial : forall O r,
      exists sch params sg, r_ske r = Some (Some sch, params, sg) /\ sch_in sch (r_valid r) = true) /\
   (forall s, client13 O r = Ok s -> s_dc s = true ->
      exists cm d, r_cert r = Some cm /\ cm_dc cm = [d] /\
-       sch_in (dc_cv_alg d) (r_dc_offered r) = true /\ sch_in (dc_alg d) (r_offered r) = true).
+       sch_in (dc_cv_alg d) (r_dc_offered r) = true /\ sch_in (dc_alg d) (r_offered r) = true) /\
+  (forall s c, client13 O r = Ok s -> s_server_chain s = Some c -> s_dc s = false ->
+     exists sch sg, r_cv r = Some (Some sch, sg) /\ sch_in sch (r_offered r) = true).
 Proof. exact scheme_offered_parts. Qed.
 
 (* the signed bytes determine the transcript and (TLS 1.3) the role, under H-ideal-hash *)
@@ -178,6 +176,13 @@ Example honest_tls13_client : exists s, client13 (orc_const true) run0 = Ok s /\
 Proof. eexists. split; vm_compute; reflexivity. Qed.
 Example forged_tls13_rejected : client13 (orc_const false) run0 = Err (OtherExn X_DecryptionFailed).
 Proof. vm_compute. reflexivity. Qed.
+(* the inputs that refuted the two statements before the fixes are now handled correctly *)
+Example former_witness_scheme_not_offered_now_rejected :
+  client13 (orc_const true) run_w1 = Err (OtherExn illegal_parameter).
+Proof. exact former_witness_scheme_not_offered_rejected. Qed.
+Example former_witness_srp_unproved_now_not_recorded :
+  exists s, server12 (orc_const true) run_w2 = Ok s /\ s_srp_user s = None.
+Proof. exact former_witness_srp_unproved_not_recorded. Qed.
 Example ideal_hash_hypotheses_satisfiable :
   let O := orc_const true in
   (forall t1 t2 n, o_digest O t1 n = o_digest O t2 n -> t1 = t2) /\
